@@ -21,8 +21,8 @@ func (s *sampler) intn(lo, hi int, l string) int { return lo + U(s.t, hi-lo+1, l
 
 // BoundaryRunes sit at the edges of the encoding and of the tables parsers special-case:
 // the last Basic Latin rune and the first one behind it, the ends of the 2/3/4-byte ranges,
-// the runes around the surrogate gap, NUL, the byte order mark.
-var BoundaryRunes = []rune{0x7f, 0x80, 0x81, 0xff, 0x100, 0x7ff, 0x800, 0xd7ff, 0xe000, 0xfffe, 0xffff, 0x10000, 0x10ffff, 0, 0xfeff}
+// the runes around the surrogate gap, NUL, the byte order mark, the Unicode line separators (which are not newlines here).
+var BoundaryRunes = []rune{0x7f, 0x80, 0x81, 0xff, 0x100, 0x7ff, 0x800, 0xd7ff, 0xe000, 0xfffe, 0xffff, 0x10000, 0x10ffff, 0, 0xfeff, 0x2028, 0x2029, 0x85}
 
 func (s *sampler) rune_() rune {
 	if U(s.t, 12, "boundaryrune") == 0 {
